@@ -96,6 +96,11 @@ def _sleep_for(x, delay):
     import zlib
     salt, max_ms = delay
     h = zlib.crc32(repr((_plain(x), salt)).encode())
+    if max_ms < 0:
+        # straggler mode: about one evaluation in eight of the first ones (the pooled initial population) is slow
+        if REC.n_calls <= 40 and h % 8 == 0:
+            time.sleep(-max_ms / 1000.0)
+        return
     time.sleep((h % 1000) / 1000.0 * max_ms / 1000.0)
 
 
